@@ -232,6 +232,19 @@ class CallMixin:
         k = self.dec_feasible([z3.Not(z3.Or(*[x for _, x in conds]))] + [x for _, x in conds], node, tag='raises:' + c.qualname)
         if k > 0:
           raise Raise_(conds[k - 1][0], 'from ' + c.label)
+      for gn, gs in c.ghost_out.items():
+        gv = V(gs, gs.fresh('ghost_' + gn))
+        self.env[gn] = gv
+        saved_env[gn] = gv        # ghost results are visible to the caller's specs
+      if c.raises_ensures:
+        names = list(c.raises_ensures)
+        k = self.dec.choose(1 + len(names))
+        if k > 0:
+          exc = names[k - 1]
+          for r in c.raises_ensures[exc]:
+            self.assume(self.spec(r))
+          self.used_contracts.add(c.label)
+          raise Raise_(exc, 'from ' + c.label)
       if c.result is None:
         res = NONE
       elif isinstance(c.result, S.Sort):
